@@ -72,6 +72,10 @@ def verify_case(con: C.Contract, case: C.Case, timeout_ms=10000) -> CaseReport:
         args2 = [s.make(ctx, env) for s in case.args]
         kw2 = {k: s.make(ctx, env) for k, s in case.kwargs.items()}
         it = I.Interp(ctx, target_ids={id(fn)})
+        for k, v in getattr(case, "interp_flags", {}).items():
+            setattr(it, k, v)
+        if getattr(case, "setup", None) is not None:
+            case.setup(it, ctx, args1, env)
         try:
             rv = it.interpret_function(fn, args1, kw1)
             real = ("return", rv)
